@@ -201,7 +201,9 @@ CHECKS = {
     'C10': ('Lean 4 theorems over a model of the regeneration decision + model/implementation correspondence',
             'Kernel-checked theorems: over every history of set_regeneration calls the decision for a kind is the last '
             'setting for it, else the last setting for all kinds, else no; kinds named on a command line (C19 meaning) '
-            'are exactly the kinds regenerated; an assertion that is not selected leaves its reference unchanged; '
+            'are exactly the kinds regenerated, also for the pytest spellings (ref_table_spec: after referencepytest.ref a '
+            'kind is regenerated iff --write-all was given or the kind is a comma-separated part of a --write parameter); an '
+            'assertion that is not selected leaves its reference unchanged; '
             'regenerate-then-check passes for strings, text files (universal newlines: splitlines(universal s) = '
             'splitlines s) and binary files for every content and option record (via C04 identical_passes). Tied to '
             'the code by running op histories on real ReferenceTest objects; file effects and the parquet leg are '
@@ -234,8 +236,11 @@ CHECKS = {
             'files or contradictory options (rex/norex, all/fields, per-constraint/no-per-constraint, output-fields/'
             'no-output-fields) never runs the command; an accepted discover / verify / detect invocation passes exactly the '
             'documented keywords (each present iff its option was given); the generated tables are well formed and contain '
-            'every destination the translation reads, including the documented spelling --no-original-fields. The model is '
-            'tied to pd_*_params on every generated command line. PARTIAL: that the command line then produces the same '
+            'every destination the translation reads, including the documented spelling --no-original-fields; the dispatch test '
+            '(which invocations the pandas front-end takes: some argument is - or has a flat-file extension, extensions '
+            'regenerated from pd/extension.py) is a disjunction over the arguments, so it does not depend on where flags, their '
+            'values and the files stand (applicable_perm, applicable_append). The model is '
+            'tied to pd_*_params and to TDDAPandasExtension.applicable / os.path.splitext on every generated command line. PARTIAL: that the command line then produces the same '
             'constraints, counts, report text and detection output as the library on the loaded DataFrame, that constraints '
             'discovered from a file verify against it, and that failing invocations leave no output file is decided by the '
             'oracle: every generated CSV / parquet file is discovered (to a file, to -, to nothing, from standard input), '
@@ -260,7 +265,10 @@ CHECKS = {
             '(flags recognised, tdda arguments removed, everything else in place, kinds registered); under the tagged '
             'option the tests selected from a class are exactly the visible tests that carry the tag themselves or '
             'through (an ancestor of) their class, each once; without it all; with the list option nothing runs and '
-            'exactly the classes containing a tagged test are listed. Tied to the code by running scanner and loader '
+            'exactly the classes containing a tagged test are listed; the same four statements for the pytest collection filter '
+            '(referencepytest.tagged: methods tagged themselves or through their class and tagged module-level functions stay, '
+            'each once; the list option leaves nothing to run and names each class with a tagged test once). Tied to the code by '
+            'running scanner, loader and collection filter (on stand-ins for pytest items holding real bound methods) '
             'on generated inputs; whole runs (python module.py argv, side-effect log; tests named as Class.method; tagged '
             'tests under other decorators) and pytest runs through the library\'s collection filter (module-level test '
             'functions among the classes; --tagged, --istagged) are the oracle.',
